@@ -19,7 +19,6 @@ small lexer of my own:
     records is unchanged.
 """
 import ast
-import gc
 import json
 import os
 import re
@@ -84,6 +83,7 @@ FIXED = [
     '( rec.X !=  # ünîcødé comment X\n  user.Attr.X)',
     '( $X not in rec.Y or $Y + $X == rec.X)',
     'True', '1', '"X"', 'None', 'not', '$', ' ', '#', '# X', 'rec.X # $X\n# rec.X',
+    'DOLLARX == $X', 'rec.DOLLARX != $X or DOLLAR',
 ]
 
 
@@ -159,13 +159,11 @@ PRIMARY = ['acl:T1:*', 'dc:T1:Ref:T2', 'trt:T1', 'trc:T1']
 SECONDARY = ['acl:T1:X,Y', 'acl:*:*', 'acl:T2:*', 'acl:T3:*', 'acl:T4:*',
              'dc:T1:RefList:T2', 'dc:T1:Text', 'dc:T5:Ref:T1', 'dc:T2:Ref:T2', 'dc:T4:Ref:T4',
              'dc:T3:Choice', 'trt:T4', 'trc:T3', 'trb:T2', 'trt:T2']
-CTX_OF = {'acl': 'acl', 'dc': 'dropdown', 'trt': 'trigger-text', 'trc': 'trigger-config',
-          'trb': 'trigger-both'}
 WOPT_EXTRA = {'alignment': 'left', 'choices': ['X', 'rec.X'], 'note': '$X'}
 FILTERS = [{'colRef': 2, 'filter': '{"included": ["X"]}'}]
 
 
-def _wopt(text, parsed=False):
+def _wopt(text):
   w = dict(WOPT_EXTRA)
   w['dropdownCondition'] = {'text': text}
   return json.dumps(w)
@@ -516,15 +514,16 @@ def evaluate(before, after):
   for (ctx, ident), old in olds.items():
     new = news.get((ctx, ident.split(' (')[0].split(' on ')[0]))
     where = "%s %s" % (ctx, ident)
+    kctx = ctx.replace('trigger-both/', 'trigger-')      # finding keys: by kind of expression
     if new is None:
-      yield ('bad', 'C17/%s/vanished' % ctx, "%s: condition %r is gone" % (where, old['text']),
+      yield ('bad', 'C17/%s/vanished' % kctx, "%s: condition %r is gone" % (where, old['text']),
              where)
       continue
     tree = tparse(old['text']) if isinstance(old['text'], str) else None
     if tree is None:
       if new['text'] != old['text'] or new['has_parsed'] != old['has_parsed'] or \
          new['parsed'] != old['parsed']:
-        yield ('bad', 'C17/%s/unparsable-touched' % ctx, "%s: unparsable %r became %r (parsed %r "
+        yield ('bad', 'C17/%s/unparsable-touched' % kctx, "%s: unparsable %r became %r (parsed %r "
                "-> %r)" % (where, old['text'], new['text'], old['parsed'], new['parsed']), where)
       else:
         yield ('ok', False, None)
@@ -541,16 +540,16 @@ def evaluate(before, after):
         kind = 'renamed-but-should-not'
       else:
         kind = 'wrong-rename'
-      yield ('bad', 'C17/%s/%s' % (ctx, kind), "%s; expected tree %s, got %s" % (
+      yield ('bad', 'C17/%s/%s' % (kctx, kind), "%s; expected tree %s, got %s" % (
           told, json.dumps(want), json.dumps(got)), where)
       continue
     diff = text_diff(old['text'], new['text'], pairs)
     if diff:
-      yield ('bad', 'C17/%s/other-text-changed' % ctx, "%s; %s" % (told, diff), where)
+      yield ('bad', 'C17/%s/other-text-changed' % kctx, "%s; %s" % (told, diff), where)
       continue
     if new['has_parsed'] or pairs:
       if not new['has_parsed'] or new['parsed'] != got:
-        yield ('bad', 'C17/%s/stored-parsed-stale' % ctx, "%s; stored parsed form %s, "
+        yield ('bad', 'C17/%s/stored-parsed-stale' % kctx, "%s; stored parsed form %s, "
                "parse(new text) = %s" % (told, json.dumps(new['parsed']), json.dumps(got)), where)
         continue
     yield ('ok', bool(pairs), {'where': where, 'old': old['text'], 'new': new['text'],
@@ -663,8 +662,17 @@ BROKEN_CTX = [('acl', 'acl:T1:*'), ('dropdown', 'dc:T1:Ref:T2'), ('trigger-text'
               ('trigger-config', 'trc:T1')]
 
 
+_SPECS = {}
+
+
 def doc_specs(tier):
   """[(name, placements, dual_rule)] - deterministic."""
+  if tier not in _SPECS:
+    _SPECS[tier] = _doc_specs(tier)
+  return _SPECS[tier]
+
+
+def _doc_specs(tier):
   leafs = leaf_formulas()
   full = [f for f in full_formulas(tier) if f not in set(leafs)]
   ok_leafs = [f for f in leafs if python_accepts(f)]
@@ -683,6 +691,19 @@ def doc_specs(tier):
 
 # The documents of broken texts get the renames of X in every table and the no-op only.
 BROKEN_DOC_CASES = ('fresh/T1.X', 'fresh/T2.X', 'fresh/T3.X', 'fresh/T4.X', 'noop/T1.X->X')
+# In the quick tier the 'formulas-k' documents (syntactic variety, all on T1) get these cases;
+# the 'locations' document gets all of them.
+QUICK_FORMULA_DOC_CASES = ('fresh/T1.X', 'fresh/T2.X', 'fresh/T3.X', 'fresh/T4.X', 'sanitise/T1.X',
+                           'collide/T1.X->Y', 'other/T1.Y', 'noop/T1.X->X', 'bulk/T1.X,T2.X,T3.X',
+                           'swap/T1.X<->Y')
+
+
+def cases_for(tier, docname, cases):
+  if docname.startswith('broken-in-'):
+    return [c for c in cases if c[0] in BROKEN_DOC_CASES]
+  if tier == 'quick' and docname.startswith('formulas-'):
+    return [c for c in cases if c[0] in QUICK_FORMULA_DOC_CASES]
+  return cases
 
 _DOCS = {}
 
@@ -741,7 +762,8 @@ def run(tier, report):
       'condition, trigger text and trigger config expression on table T1 (%d documents of <= %d '
       'formulas), and every atom also at %d further locations (other tables, other resources, '
       'RefList/Text/self-referencing columns, text+config triggers); %d stored formulas in %d '
-      'documents x %d rename cases (the documents of broken texts: 5 of them; fresh / sanitised / colliding / keyword names, each of 5 tables, '
+      'documents x %d rename cases (the documents of broken texts: 5 of them; in the quick tier '
+      'the formulas-k documents: 10 of them; fresh / sanitised / colliding / keyword names, each of 5 tables, '
       'other columns, no-op, bulk and swap renames%s); one evaluation = one stored formula, '
       'resource or user attribute checked after one rename; non-trivial = at least one reference '
       'had to be renamed' % (
@@ -752,16 +774,24 @@ def run(tier, report):
               len(TERNARY), len(LEAVES_T)),
           len(FIXED), len(specs), CHUNK, len(SECONDARY), nform, len(specs), len(cases),
           '' if tier == 'quick' else ', ModifyColumn / label paths, sequences of renames')))
-  for name, _p, _d in specs:         # build before forking so that workers share the snapshots
-    get_doc(tier, name)
-  tasks = [(tier, name, cname, bundles) for name, _p, _d in specs for cname, bundles in cases
-           if not name.startswith('broken-in-') or cname in BROKEN_DOC_CASES]
-  gc.freeze()                        # fewer copy-on-write faults in the forked workers
-  # A few long-lived workers: on the shared 16-core box, system time grows faster than linearly
-  # with the number of engine-loading processes (measured: 2 procs 15 s, 6 procs 115 s, 16 procs
-  # 170-260 s of system time for the same 45 s of work), so more workers make the run slower.
+  # Few long-lived workers, each building the documents it needs itself (the parent stays small):
+  # on the shared box, system time (page faults) grows faster than linearly with the number of
+  # engine-loading processes - measured for the same 45 s of work: 2 processes 15 s, 6 processes
+  # 115 s, 16 processes 170-260 s of system time - so more workers make the run slower.
   nproc = int(os.environ.get('C17_PROCS', '0') or 0) or (4 if tier == 'quick' else 6)
-  for parts in pmap(run_group, [tasks[i::nproc] for i in range(nproc)]):
+  units = []                         # (cost, [tasks of one document, one slice of the cases])
+  for name, placements, _d in specs:
+    mine = [(tier, name, cname, bundles) for cname, bundles in cases_for(tier, name, cases)]
+    nsplit = 3 if name == 'locations' else 2 if len(mine) > 8 else 1
+    for k in range(nsplit):
+      part = mine[k::nsplit]
+      units.append((len(placements) * (1 + sum(len(t[3]) for t in part)), part))
+  groups = [[0, []] for _ in range(nproc)]
+  for cost, part in sorted(units, key=lambda u: -u[0]):      # longest first, to the least loaded
+    g = min(groups, key=lambda x: x[0])
+    g[0] += cost
+    g[1].extend(part)
+  for parts in pmap(run_group, [g[1] for g in groups if g[1]]):
     for part in parts:
       E.merge(part)
   E.finish(exhaustive=True, documents=len(specs), rename_cases=len(cases), stored_formulas=nform)
